@@ -136,8 +136,9 @@ func (p *Printer) symbol(s model.Sym, where byte, inSexp bool) string {
 		return fmt.Sprintf("$%d", s.SID)
 	}
 	t := s.Text
-	if p.UseSIDs {
-		if ids := p.Ctx.IDsFor(t); len(ids) > 0 && p.C.Flip("sym:as-sid") {
+	// (without a declared table only system symbols have ids: name is $4 in any stream)
+	if p.UseSIDs || (len(p.Ctx.IDsFor(t)) > 0 && p.C.FlipP("sym:system-sid", 0.25)) {
+		if ids := p.Ctx.IDsFor(t); len(ids) > 0 && (!p.UseSIDs || p.C.Flip("sym:as-sid")) {
 			return fmt.Sprintf("$%d", ids[p.C.Intn(len(ids))])
 		}
 	}
